@@ -356,6 +356,18 @@ Definition store_add (cfg : config) (now : N) (st : store) (raw : addr) : store 
   {| st_cache_path := st_cache_path st; st_cfg_path := st_cfg_path st; st_disable := st_disable st;
      st_mem := add_addr cfg now (st_mem st) raw |}.
 
+(* write(): the file at cache_path is replaced by the in-memory cache, whatever it held and also when the
+   in-memory cache is empty (that is how `first` wipes the cache of a previous network) *)
+Definition store_write (st : store) (fs : files) : files := fs_set fs (st_cache_path st) (st_mem st).
+
+(* NOT the code: a write() that leaves an existing file alone when there is nothing in memory -- kept only for
+   `write_skip_empty_refuted` *)
+Definition store_write_skip_empty (st : store) (fs : files) : files :=
+  match st_mem st, fs_get fs (st_cache_path st) with
+  | [], Some _ => fs
+  | _, _ => fs_set fs (st_cache_path st) (st_mem st)
+  end.
+
 (* sync_and_flush_to_disk(true) on the store: reads config.cache_file_path, writes cache_path *)
 Definition store_flush (cfg : config) (now : N) (st : store) (fs : files) : store * files :=
   if st_disable st then (st, fs) else
@@ -585,4 +597,14 @@ Definition agree_ctor (cfg : config) (now : N) (ctor_new : bool) (config_path : 
   | Some c, Some ks => sorted_keys_eqb (map fst c) ks
   | None, None => true
   | _, _ => false
+  end.
+
+(* a sequence of write()s of freshly built stores on one path; after each the implementation's load shows `loaded`.
+   Addresses are compared as the sorted texts the harness reports. *)
+Fixpoint agree_cache_saves (prev : option (list string)) (steps : list (list string * list string)) : bool :=
+  match steps with
+  | [] => true
+  | (written, loaded) :: rest =>
+      (* write() replaces the whole content: what is loaded is what was written, whatever `prev` was *)
+      list_eqb String.eqb written loaded && agree_cache_saves (Some written) rest
   end.
